@@ -26,6 +26,7 @@ func (w *World) registerMoreIntrinsics() {
 	w.registerRaceIntrinsics()
 	w.registerFileIntrinsics()
 	w.registerSessionCodecIntrinsics()
+	w.registerSortQueryIntrinsics()
 	terms := func(e *Exec, v Value) []*Term {
 		var ts []*Term
 		for _, x := range e.sliceElems(v.(*SliceVal)) {
